@@ -258,6 +258,22 @@ def _verdict(prop, tier, seed, mod, m, reports, post, t0, nshards, write=True):
     return 0
 
 
+def _anchor_files(prop):
+    """Library files the property is anchored in (properties.jsonl), as keys of the coverage report."""
+    out = set()
+    try:
+        with open(os.path.join(VERIF, "properties.jsonl")) as f:
+            for line in f:
+                rec = json.loads(line)
+                if rec.get("id") == prop:
+                    for fn in rec.get("anchors", {}).get("files", []):
+                        if "smoothmath/" in fn:
+                            out.add(fn.split("smoothmath/", 1)[1])
+    except Exception:
+        pass
+    return out
+
+
 def _write_evidence(prop, tier, seed, mod, m, reports, wall, nviol, status, inconclusive, kf_lines, nshards):
     cov = {
         "evaluations": int(m["evaluations"]),
@@ -289,12 +305,13 @@ def _write_evidence(prop, tier, seed, mod, m, reports, wall, nviol, status, inco
     for r in reports:
         if r.get("status") == "ok" and r.get("line_coverage"):
             lc = r["line_coverage"]
-            anchors = getattr(mod, "ANCHOR_FILES", None)
+            anchors = _anchor_files(prop)
             tot_x = sum(v["executable"] for v in lc.values())
             tot_h = sum(v["executed"] for v in lc.values())
             cov["line_coverage_shard0"] = {
                 "note": "function-body lines of the library executed by shard 0 of this run (sys.monitoring LINE events)",
                 "executed": tot_h, "executable": tot_x,
+                "anchor_files": {k: [lc[k]["executed"], lc[k]["executable"]] for k in sorted(anchors) if k in lc},
                 "files": {k: {"executed": v["executed"], "executable": v["executable"], "unreached": v["unreached"]}
                           for k, v in sorted(lc.items()) if v["executed"] < v["executable"] or (anchors and k in anchors)},
             }
